@@ -1,7 +1,7 @@
 (* Soundness of the certificate check for the interleaving semantics: a finite set of states that
    contains the initial state, is closed under every step of every process and consists of safe
    states contains every reachable state.  Refuting runs: a schedule's end state is reachable. *)
-Require Import NArith PeanoNat List Bool.
+Require Import NArith PeanoNat List Bool FMapPositive.
 From VV Require Import Proto.Procs.
 Import ListNotations.
 
@@ -11,23 +11,37 @@ Proof.
   destruct (state_eq_dec s x); [subst; auto | discriminate].
 Qed.
 
-Theorem closed_sound : forall safe init S,
-  closed_check safe init S = true ->
-  forall s, reachable init s -> In s S /\ safe s = true.
+Definition InSet (s : state) (M : sset) : Prop :=
+  exists l, PositiveMap.find (key s) M = Some l /\ In s l.
+
+Lemma smem_InSet : forall s M, smem s M = true -> InSet s M.
 Proof.
-  intros safe init S C. unfold closed_check in C. apply andb_true_iff in C as [Mi All].
+  intros s M H. unfold smem in H. destruct (PositiveMap.find (key s) M) as [l|] eqn:F; try discriminate.
+  exists l. split; auto. apply mem_In; auto.
+Qed.
+
+Theorem closed_sound : forall safe init M,
+  closed_check safe init M = true ->
+  forall s, reachable init s -> InSet s M /\ safe s = true.
+Proof.
+  intros safe init M C. unfold closed_check in C. apply andb_true_iff in C as [Mi All].
   rewrite forallb_forall in All.
-  assert (Hin : forall s, reachable init s -> In s S).
+  assert (Each : forall s, InSet s M ->
+                 safe s = true /\ forall s', In s' (succs s) -> InSet s' M).
+  { intros s [l [F I]]. apply PositiveMap.elements_correct in F.
+    specialize (All _ F). simpl in All. rewrite forallb_forall in All. specialize (All _ I).
+    apply andb_true_iff in All as [Sf Cl]. split; auto.
+    rewrite forallb_forall in Cl. intros s' I'. apply smem_InSet. auto. }
+  assert (Hin : forall s, reachable init s -> InSet s M).
   { induction 1.
-    - apply mem_In; auto.
-    - specialize (All _ IHreachable). apply andb_true_iff in All as [_ Cl].
-      rewrite forallb_forall in Cl. apply mem_In. apply Cl. auto. }
-  intros s R. split; auto. specialize (All _ (Hin _ R)). apply andb_true_iff in All as [Sf _]. auto.
+    - apply smem_InSet; auto.
+    - destruct (Each _ IHreachable) as [_ Cl]. auto. }
+  intros s Rr. split; auto. destruct (Each _ (Hin _ Rr)); auto.
 Qed.
 
 Theorem verify_sound : forall fuel safe init,
   verify fuel safe init = true -> forall s, reachable init s -> safe s = true.
-Proof. intros fuel safe init V s R. eapply closed_sound; eauto. Qed.
+Proof. intros fuel safe init V s Rr. eapply closed_sound; eauto. Qed.
 
 Lemma succs_from_nth : forall fs after before i pr x,
   nth_error after i = Some pr -> exec fs pr = Some x ->
